@@ -418,6 +418,23 @@ func (fr *Frame) addrOf(s *State, e ast.Expr) *Val {
 	case *ast.StarExpr:
 		return fr.eval(s, x.X)
 	}
+	// &x.f where f is a big.Int value: a temporary reference holding the field's current value; after the
+	// enclosing call the (possibly updated) value is written back to the field
+	if sel, ok := ast.Unparen(e).(*ast.SelectorExpr); ok && isBigInt(fr.typeOf(e)) {
+		if _, isField := fr.info.Selections[sel]; isField {
+			for _, t := range fr.bigTemps {
+				if types.ExprString(t.expr) == types.ExprString(sel) {
+					return &Val{T: pt, S: t.ref} // the same field: the same temporary (aliasing within a call)
+				}
+			}
+			cur := fr.eval(s, sel)
+			ref := s.alloc()
+			s.setHeap("H:big", "(Array Int Int)", fmt.Sprintf("(store %s %s %s)", s.heap("H:big", "(Array Int Int)"), ref, cur.S))
+			fr.bigTemps = append(fr.bigTemps, bigTemp{ref: ref, expr: sel})
+			fr.eng.assumptions["&x.f for a big.Int field f is a temporary reference that is written back after the enclosing call; a pointer kept longer sees the value at the time it was taken"] = true
+			return &Val{T: pt, S: ref}
+		}
+	}
 	// interior pointers (&x.f, &a[i]) are outside the heap model
 	fr.imprecise(e.Pos(), "interior pointer")
 	fr.vc.eng.assumptions["interior pointers (&x.f, &a[i]) are modelled as fresh non-nil references; writes through them are not tracked"] = true
